@@ -100,7 +100,9 @@ LineOptCb(l) == IF Accepted(l) /\ CbOptional(l) THEN <<l>> ELSE <<>>
 \* set_child_value for the node and child of the announced SET message (kind "set"; e.rx.exc is what that call did to its caller)
 Rx(e) == [on |-> e.rx.on, kind |-> e.rx.kind, n |-> e.rx.n, f |-> <<e.rx.f[1], e.rx.f[2]>>, t |-> e.rx.t, v |-> e.rx.v, a |-> e.rx.a]
 RxExcOk(e, l) ==
-  (e.rx.on /\ e.rx.kind = "set" /\ Accepted(l) /\ l.h.cmd = SET /\ IsKnown(nodes, l.h.n, l.h.c))
+  (e.rx.on /\ e.rx.kind = "set" /\ Accepted(l)
+     /\ \/ l.h.cmd = SET /\ IsKnown(nodes, l.h.n, l.h.c)
+        \/ l.h.cmd = PRES /\ l.h.c # SYSCHILD /\ l.h.n \in DOMAIN nodes /\ l.h.c \notin DOMAIN nodes[l.h.n].kids)
      => Clause("rxexc", e.rx.exc = ReactSetExc(nodes, ota, l, Rx(e)))
 
 \* ---- one trace event = one Gateway action -----------------------------------
